@@ -135,6 +135,80 @@ def main(chk):
                 jobs.append((r_family, (mir, name, mode, n, t, 'shift', 'sym', chk.seed, to), {}))
     for n in ns: jobs.append((negmin_family, (mir, n, 2 * n + 3, chk.seed, to), {}))
     chk.add(run_jobs(jobs))
+    hs = [k_negmin(n, n + 3) for n in ((1, 2, 3) if q else (1, 2, 3, 4))]
+    for nm in ('SMA', 'EMA', 'MIN', 'MAX'):
+        for kexp in ((-40, 40) if q else (-40, -1, 1, 40)):
+            hs.append(k_pow2(nm, 2, 4, kexp))
+    chk.add(kani.run_family_set('C14', hs, jobs=12, timeout_s=300 if q else 1800))
     chk.assumptions += ['engine R: exact reals: covariance is exact there; the 1e-12 / 1e-9 clauses are applied when a solver model is confirmed natively',
                         'scale factors concrete (2^-40, 2^40, 1/3, 7, ...) for indicators with comparisons or ratios, symbolic for the polynomial ones; shifts symbolic in [0, 1e9]']
-    chk.notes += ['bit-for-bit power-of-two scaling of full-range floats', 'RSI excluded as in the statement']
+    chk.notes += ['bit-for-bit power-of-two scaling beyond the Kani alphabet / t=4', 'RSI excluded as in the statement']
+
+
+# ------------------------------------------------------------------------------------------------ engine K
+from vlib import kani, native
+from vlib.kani import KB, KOps
+
+
+def k_negmin(n, t):
+    """Maximum(x) == -Minimum(-x) exactly, every finite f64 stream (negation and comparisons only)"""
+    b = KB('c14_negmin_n%d_t%d' % (n, t), unwind=n + 3, family='K:C14 Maximum(x) == -Minimum(-x) exactly, n=%d, every finite f64 stream of length %d' % (n, t),
+           bounds=dict(engine='K', n=n, t=t, inputs='every finite f64'))
+    k = KOps(b)
+    k.new('a', 'MAX', [n]); k.new('m', 'MIN', [n])
+    pairs = []
+    for i in range(t):
+        x = b.anyf('x%d' % i, finite=True)
+        oa = k.feed('a', 'scalar', ('var', x, ('sym', 'x%d' % i)))
+        k.n += 1
+        om = 'o%d' % k.n
+        b.emit('let %s = m.next(-%s).ob();' % (om, x))
+        k.ops.append(('feed', 'm', (('neg', 'x%d' % i),))); k.outs.append(om)
+        b.emit('assert!(f64::from_bits(%s[0]) == -f64::from_bits(%s[0]), "Maximum(x) != -Minimum(-x)");' % (oa, om))
+
+    def confirm(vals):
+        xs = [kani.hexf(vals['x%d' % i]) for i in range(t)]
+        lines = ['new a MAX %d' % n, 'new m MIN %d' % n]
+        for x in xs: lines += ['next a ' + native.f2hex(x), 'next m ' + native.f2hex(-x)]
+        rep = native.run_script(lines)
+        outs = [r for l, r in zip(lines, rep) if l.startswith('next')]
+        for i in range(t):
+            a, m = outs[2 * i], outs[2 * i + 1]
+            if a[0] != 'out' or m[0] != 'out' or a[1][0] != -m[1][0]:
+                return True, lines, 'Maximum(%d) = %r but -Minimum(-x) = %r after %r' % (n, a, m, xs[:i + 1])
+        return False, lines, 'native agrees'
+    b.confirm = confirm
+    return b
+
+
+def k_pow2(name, n, t, kexp):
+    """multiplying every input by 2^k multiplies the output by 2^k bit for bit (inputs symbolic over an alphabet, no overflow/underflow)"""
+    tab = [1.5, 0.1, 1000.25, 3.0]
+    c = 2.0 ** kexp
+    b = KB('c14_pow2_%s_n%d_k%s' % (name.lower(), n, str(kexp).replace('-', 'm')), unwind=n + 3,
+           family='K:C14 %s n=%d: inputs scaled by 2^%d scale the output bit for bit, %d inputs symbolic over %r' % (name, n, kexp, t, tab),
+           bounds=dict(engine='K', indicator=name, n=n, t=t, factor='2^%d' % kexp, inputs='each input symbolic over %r' % (tab,)))
+    k = KOps(b)
+    k.new('a', name, [n]); k.new('s', name, [n])
+    for i in range(t):
+        x = b.pick('x%d' % i, tab); k.tables['x%d' % i] = tab
+        oa = k.feed('a', 'scalar', ('var', x, ('pick', 'x%d' % i)))
+        k.n += 1
+        os_ = 'o%d' % k.n
+        b.emit('let %s = s.next(%s * %s).ob();' % (os_, x, kani.lit(c)))
+        k.ops.append(('feed', 's', (('scaled', 'x%d' % i),))); k.outs.append(os_)
+        b.emit('assert!(f64::from_bits(%s[0]) == f64::from_bits(%s[0]) * %s, "power-of-two scaling is not exact");' % (os_, oa, kani.lit(c)))
+
+    def confirm(vals):
+        xs = [tab[vals['x%d' % i]] for i in range(t)]
+        lines = ['new a %s %d' % (name, n), 'new s %s %d' % (name, n)]
+        for x in xs: lines += ['next a ' + native.f2hex(x), 'next s ' + native.f2hex(x * c)]
+        rep = native.run_script(lines)
+        outs = [r for l, r in zip(lines, rep) if l.startswith('next')]
+        for i in range(t):
+            a, s_ = outs[2 * i], outs[2 * i + 1]
+            if a[0] != 'out' or s_[0] != 'out' or s_[1][0] != a[1][0] * c:
+                return True, lines, '%s(%d): output on 2^%d-scaled inputs %r, scaled output %r' % (name, n, kexp, s_, a)
+        return False, lines, 'native agrees'
+    b.confirm = confirm
+    return b
